@@ -38,6 +38,8 @@ def stage_text(i, st):
     if st.get("kill"):
         tail += " --kill %d" % st["kill"]
     tag = " @%d" % i
+    if st.get("amp"):
+        tag += " " + st["amp"]        # (a quoted & as the last word of the line: an argument, not the background marker)
     if k == "src":
         return "vp_st src %d %d%s%s" % (st["n"], st["seed"], tail, tag)
     if k == "flt":
@@ -364,6 +366,15 @@ def gen_cases(tier, seed):
                         special = {"kind": "src", "n": payload, "seed": 5, "linger": None, "exit": 4}
                     st[pos] = special
                     cases.append(dict(mk(st), cls="lossy"))
+    # 4a. the pipeline's last word is a quoted ampersand
+    for _ in range(60 if thorough else 16):
+        n = rng.choice([1, 2, 3])
+        order = list(range(n))
+        rng.shuffle(order)
+        st = clean_pipeline(n, rng.choice([0, 4096, 70000]), rng.randrange(1, 10 ** 6), order, step=40)
+        st[-1]["amp"] = rng.choice(["'&'", '"&"'])
+        st[-1]["exit"] = rng.choice([0, 5])
+        cases.append(dict(mk(st, rng.choice(["snap", "bare"])), cls="quoted-ampersand-last"))
     # 4b. an earlier background job terminates while the foreground pipeline runs (its status change
     #     reaches the foreground wait); the last stage finishes late
     for _ in range(120 if thorough else 30):
